@@ -59,6 +59,8 @@ private:
   std::atomic<uint64_t> force_flush_notified_sequence_{0};
   std::condition_variable cv_, force_flush_cv_;
   std::mutex cv_m_, force_flush_m_;
+  /* Serializes OnShutDown(): the worker thread is joined once, however many threads call Shutdown() */
+  std::mutex shutdown_m_;
 
   /* The background worker thread */
   std::shared_ptr<sdk::common::ThreadInstrumentation> worker_thread_instrumentation_;
